@@ -96,6 +96,52 @@ Proof.
   intros _. split; [reflexivity|]. split; [reflexivity|]. eapply build_entries_checks; eauto.
 Qed.
 
+(* incomplete_never_denies: a denial needs a record of the set that owns or covers the question
+   name, and NXDOMAIN needs in addition a record that covers the wildcard at the closest encloser as
+   an absent name; with either component missing the result is an error (ordinary resolution) *)
+Theorem aggr_nsec_needs_components q qtype qclass signer recs rc proof :
+  aggr_nsec q qtype qclass signer recs = A_deny rc proof ->
+  (exists r, In r recs /\ (q = c_owner r \/ exists s, classify_interval q r = Some s)) /\
+  (rc = RC_NXDOMAIN ->
+     exists r w ce, In r recs /\ In w recs /\ classify_interval q r = Some S_absent /\
+                    closest_encloser_aggr q r = Some ce /\ classify_interval (ce ++ [star]) w = Some S_absent).
+Proof.
+  unfold aggr_nsec.
+  destruct (negb (question_ok qtype qclass)); [discriminate|].
+  destruct (negb (prefix_b signer q)); [discriminate|].
+  destruct recs as [|r0 t] eqn:Er; [discriminate|]. rewrite <- Er in *.
+  destruct (build_entries recs qclass signer []) as [es|] eqn:Eb; [|discriminate].
+  destruct es as [|e0 es'] eqn:Ee; [discriminate|]. rewrite <- Ee in *.
+  assert (Hsub : forall e, In e es -> In e recs)
+    by (intros e He; destruct (build_entries_subset _ _ _ _ _ Eb e He) as [[]|H]; exact H).
+  unfold evaluate_entries.
+  destruct (classify q es) as [e|r|st r] eqn:Hc; [discriminate| |].
+  - destruct (classify_exact _ _ _ Hc) as [_ [Hr Hq]].
+    destruct (negb (aggressive_nodata_type qtype)); [discriminate|].
+    destruct (exact_nodata_check qtype (c_types r)); try discriminate.
+    intros E. inversion E; subst. split; [exists r; split; [apply Hsub, Hr | left; reflexivity]|]. discriminate.
+  - destruct (classify_cover _ _ _ _ Hc) as [_ [Hr Hci]].
+    assert (H1 : exists r1, In r1 recs /\ (q = c_owner r1 \/ exists s, classify_interval q r1 = Some s))
+      by (exists r; split; [apply Hsub, Hr | right; eauto]).
+    destruct st.
+    + destruct (negb (aggressive_nodata_type qtype)); [discriminate|].
+      intros E. inversion E; subst. split; [exact H1 | discriminate].
+    + destruct (rname_eqb q signer); [discriminate|].
+      destruct (closest_encloser_aggr q r) as [ce|] eqn:Hce; [|discriminate].
+      destruct (negb (prefix_b signer ce)); [discriminate|].
+      destruct (classify (ce ++ [star]) es) as [e|w|st w] eqn:Hw; [discriminate| |].
+      * destruct (negb (aggressive_nodata_type qtype) || (qtype =? T_DS)); [discriminate|].
+        destruct (cut_bitmap (c_types w)); [discriminate|].
+        destruct (exact_nodata_check qtype (c_types w)); try discriminate.
+        intros E. inversion E; subst. split; [exact H1 | discriminate].
+      * destruct (classify_cover _ _ _ _ Hw) as [_ [Hwr Hwci]].
+        destruct st.
+        -- destruct (negb (aggressive_nodata_type qtype) || (qtype =? T_DS)); [discriminate|].
+           intros E. inversion E; subst. split; [exact H1 | discriminate].
+        -- intros E. inversion E; subst. split; [exact H1|]. intros _.
+           exists r, w, ce. repeat split; auto.
+Qed.
+
 (* ------------------------------------------------------------ exact verifiers *)
 Section Exact.
   Variable z : zone.
